@@ -371,7 +371,8 @@ Qed.
 
 Lemma Sem_do_round r : Sem (do_round c p r) (spec_round c r) tt.
 Proof.
-  unfold do_round, spec_round. apply Sem_seq; [apply Sem_for_each; apply Sem_deliver|apply Sem_entering_idle].
+  unfold do_round, spec_round. apply Sem_seq; [apply Sem_for_each; apply Sem_deliver|].
+  eapply Sem_conv; [eapply Sem_seq; [apply Sem_entering_idle|apply Sem_emit_silent; reflexivity]|apply app_nil_r].
 Qed.
 
 Lemma SemA_quit al : SemA al quit [] (RErr ExitMainLoop) (fun _ => True).
@@ -390,7 +391,8 @@ Definition loop_inner (rounds : list (list event)) : M unit :=
   bindM (set_alarms []) (fun _ =>
   bindM (for_each (fire_alarm c p) al) (fun _ =>
   bindM (entering_idle c p) (fun _ =>
-  bindM (for_each (do_round c p) rounds) (fun _ => quit))))).
+  bindM (emit TWait) (fun _ =>
+  bindM (for_each (do_round c p) rounds) (fun _ => quit)))))).
 
 Lemma SemA_loop_inner al rounds : SemA al (loop_inner rounds) (spec_loop al rounds) (RErr ExitMainLoop) (fun _ => True).
 Proof.
@@ -399,6 +401,7 @@ Proof.
   intros al1 <-.
   eapply SemA_step; [apply Sem_for_each; apply Sem_fire_alarm|].
   eapply SemA_step; [apply Sem_entering_idle|].
+  eapply SemA_conv; [eapply SemA_step; [apply Sem_emit_silent; reflexivity|]|apply app_nil_l].
   eapply SemA_conv; [eapply SemA_step; [apply Sem_for_each; apply Sem_do_round|apply SemA_quit]|apply app_nil_r].
 Qed.
 
